@@ -6,19 +6,22 @@ the load-balancing policy ignores), the pool under test is the one for 10.0.0.2 
 `HostConnection` (protocol v3+) or a `HostConnectionPool` (protocol v1/v2, core=1, max=2, growth and
 trashing thresholds lowered).  Pool connections get a small `max_in_flight` and a small
 `orphaned_threshold`, so capacity and replacement are reached within a few requests.  The server
-holds every application request; the explorer decides when it is answered, when the client gives
-up on it, when a connection breaks, when the next executor task runs (and whether the connection
-it opens is accepted or refused) and when the pool is shut down.
+holds every application request; the explorer decides when it is answered (with a result, or with
+an error that the retry policy answers with "retry on the same host": the retry is an executor
+task), when the client gives up on it -- also after its response has been processed, while the retry
+is still queued or (engine S) while the reactor is still inside the response handler --, when a
+connection breaks, when the next executor task runs (and whether the connection it opens is accepted
+or refused) and when the pool is shut down.
 
 The monitors are independent of the driver's own counters wherever the statement is about what
 happens on the wire: which streams are outstanding on which connection is taken from what the
 *server* received and answered; a request counts as given up once the application has been handed
 an outcome for it (or while its client-side timeout is expiring).
 
-Engine E: `PoolHarness` (events = request / answer / timeout / connection reset / next task with the
-connect accepted or refused / shutdown).  Engine S: `sched_run` (client, reactor, executor-worker and
-shutdown threads after a staged single-threaded prefix; scheduling points at every line of the pool
-class).  Both use the same judgements (`PoolWorld.*_findings`); each property passes the list of
+Engine E: `PoolHarness` (events = request / answer / answer with a retried error / timeout /
+connection reset / next task with the connect accepted or refused / shutdown).  Engine S: `sched_run`
+(client, reactor, timer, executor-worker and shutdown threads after a staged single-threaded prefix,
+optionally followed by a single-threaded epilogue; scheduling points at every line of the pool class).  Both use the same judgements (`PoolWorld.*_findings`); each property passes the list of
 clauses it owns, hits of the other property's clauses are only counted.
 """
 from vt import explore
@@ -26,7 +29,7 @@ from vt.connlib import quiet_driver_logs
 from vt.world.vworld import World, VServer, HostSpec, VConnection, VClock
 from vt.world import wire
 from vt.vthreading import WouldBlock
-from vt.reqworld import ScriptedRetryPolicy, Observer
+from vt.reqworld import ScriptedRetryPolicy, Observer, response_body
 
 from cassandra.cluster import ExecutionProfile, EXEC_PROFILE_DEFAULT
 from cassandra.connection import ConnectionException
@@ -188,6 +191,9 @@ class PoolWorld(object):
             self.n_defunct = 0
             self.n_fail = 0
             self.n_late = 0
+            self.n_retry = 0             # answers with an error that the retry policy had retried on the same host
+            self.n_late_timeout = 0      # client timeouts of a request whose response had already been processed
+            self.skipped = 0             # engine S epilogue events that were not possible
             self.timing_out = None
             self.stuck = None
             self.w.close_hooks.append(self._on_close)
@@ -342,6 +348,26 @@ class PoolWorld(object):
             self.n_late += 1
         self.server.respond(p, wire.OP_RESULT, wire.result_void(), deliver=True)
 
+    def respond_retry(self, idx):
+        """The server answers with an error (OVERLOADED) for which the application's retry policy says
+        "retry on the same host": the driver processes the response (the stream is free again) and
+        queues the retry on the executor; the request's client-side timer keeps running."""
+        self.retry_pending(self.open_pending()[idx])
+
+    def retry_pending(self, p):
+        self.n_retry += 1
+        self.retry.next = ('RETRY', None)
+        try:
+            op, body = response_body('overloaded', self.proto)
+            self.server.respond(p, op, body, deliver=True)
+        finally:
+            self.retry.next = ('RETHROW', None)
+
+    def outstanding(self, k):
+        """request k is on the wire of an open connection and the server has not answered it"""
+        q = 'SELECT q%d' % k
+        return any(p.req.get('query') == q for p in self.open_pending())
+
     def timer_of(self, k):
         f = self.reqs[k][0]
         if f is None:
@@ -357,6 +383,8 @@ class PoolWorld(object):
         t = self.timer_of(k)
         t.fired = True
         self.w.timers.remove(t)
+        if not self.outstanding(k):
+            self.n_late_timeout += 1     # the response has been processed already (or is being processed right now)
         self.timing_out = k
         try:
             t.finish(t.end)
@@ -512,7 +540,7 @@ class PoolWorld(object):
                 futs.append(None)
                 continue
             futs.append((f._event.is_set(), type(f._final_exception).__name__, len(o.results), len(o.errors),
-                         self.timer_of(k) is not None, self.wire_of(k)))
+                         self.timer_of(k) is not None, self.wire_of(k), f._query_retries))
         tasks = []
         for t in self.w.tasks:
             args = tuple(getattr(a, 'vid', None) for a in t[2])
@@ -521,13 +549,14 @@ class PoolWorld(object):
         return (tuple(conns), pl, tuple(futs), tuple(tasks), pend, tuple(sorted(self.orphaned)),
                 tuple(sorted(self.orphan_hit)), tuple(sorted(self.req_after_hit)), self.host.is_up,
                 self.session._pools.get(self.host) is pool, self.n_defunct, self.n_fail,
-                self.session.is_shutdown, len(self.w.sched_tasks), bool(self.stuck))
+                self.session.is_shutdown, len(self.w.sched_tasks), bool(self.stuck), self.n_retry, self.n_late_timeout)
 
 
 class PoolHarness(explore.Harness):
     """Engine E harness.  params (besides the PoolWorld ones): prop ('C12'|'C13'), clauses (list of
-    oracle clauses this property judges), n_req, max_defunct, max_fail, shutdown (bool),
-    task_window, prefix (events applied in init), drain_orders."""
+    oracle clauses this property judges), n_req, max_defunct, max_fail, max_retry (answers with a
+    retried error, counted from the start of the prefix), shutdown (bool), task_window, prefix (events
+    applied in init), drain_orders."""
     name = 'pool'
 
     def init(self):
@@ -551,8 +580,10 @@ class PoolHarness(explore.Harness):
             return evs
         if len(st.reqs) < p.get('n_req', 3) and not st.session.is_shutdown:
             evs.append((('req',), 0))
-        for i in range(len(st.open_pending())):
+        for i, pnd in enumerate(st.open_pending()):
             evs.append((('resp', i), 0))
+            if st.n_retry < p.get('max_retry', 0) and not st.given_up(pnd):
+                evs.append((('resp-retry', i), 0))
         for k in range(len(st.reqs)):
             if st.timer_of(k) is not None:
                 evs.append((('timeout', k), 0))
@@ -596,7 +627,9 @@ class PoolHarness(explore.Harness):
         part.outcome(st.outcome())
         if st.w.clock.spun:
             part.count('states_after_a_polling_loop_was_ended_by_the_clock')
-        if st.closes or st.n_late or st.n_defunct or st.n_fail or st.orphaned:
+        if st.n_late_timeout:
+            part.count('states_after_a_timeout_of_an_already_answered_request')
+        if st.closes or st.n_late or st.n_defunct or st.n_fail or st.orphaned or st.n_retry:
             part.mark_nontrivial(repr(st.canon()))
 
 
@@ -608,6 +641,8 @@ def apply_event(st, ev):
             st.issue()
         elif kind == 'resp':
             st.respond(ev[1])
+        elif kind == 'resp-retry':
+            st.respond_retry(ev[1])
         elif kind == 'timeout':
             st.timeout(ev[1])
         elif kind == 'defunct':
@@ -671,7 +706,12 @@ def focus_codes(cls):
 def sched_run(params, prefix, part):
     """One execution under engine S.  params (besides the PoolWorld ones): prop, clauses, stage (events
     applied single-threaded before the threads start), threads (list of 'client' | 'shutdown' |
-    'reactor' | 'worker'), orphan_tags (requests the reactor times out instead of answering),
+    'reactor' | 'worker' | 'timer'), orphan_tags (requests the reactor times out instead of answering),
+    answer_tags (if given: the only requests the reactor handles while the threads run, the others are
+    answered at the end), timer_tags (requests whose client-side timers the timer thread fires, one
+    after the other, unless they were cancelled first: a timer that does not run on the thread that
+    processes the responses), epilogue (events applied single-threaded once the threads are gone, before
+    everything outstanding is answered; one that is not possible then is skipped and counted),
     max_fail (connects the worker's environment may refuse; a data choice charged like a preemption),
     shutdown_at_end (a pool that no thread shut down is shut down once the threads are gone, then the
     post-condition is judged as after any other shutdown).
@@ -688,7 +728,8 @@ def sched_run(params, prefix, part):
         s = sched.Scheduler(prefix, focus=focus_codes(type(st.pool)), horizon=p.get('horizon', 12000), clock=st.w.clock)
         threads = list(p['threads'])
         orphan_tags = set(p.get('orphan_tags', ()))
-        ctl = {'active': sum(1 for t in threads if t in ('client', 'shutdown')), 'worker': 'worker' not in threads,
+        answer_tags = set(p['answer_tags']) if p.get('answer_tags') is not None else None
+        ctl = {'active': sum(1 for t in threads if t in ('client', 'shutdown', 'timer')), 'worker': 'worker' not in threads,
                'reactor': 'reactor' not in threads}
         flagged = []
 
@@ -709,6 +750,8 @@ def sched_run(params, prefix, part):
                 if st.given_up(pnd):
                     continue           # late answers to given-up requests come at the end
                 tag = int(pnd.req['query'].rsplit('q', 1)[1])
+                if answer_tags is not None and tag not in answer_tags:
+                    continue
                 if tag in orphan_tags:
                     if st.timer_of(tag) is not None:
                         acts.append(('timeout', tag))
@@ -764,6 +807,15 @@ def sched_run(params, prefix, part):
             finally:
                 ctl['active'] -= 1
 
+        def timer():
+            try:
+                for k in p.get('timer_tags', ()):
+                    if st.timer_of(k) is not None:      # (Timer.finish looks at `canceled` once more itself)
+                        st.timeout(k)
+                        st.note_state()
+            finally:
+                ctl['active'] -= 1
+
         n = {}
         for t in threads:
             n[t] = n.get(t, 0) + 1
@@ -772,6 +824,8 @@ def sched_run(params, prefix, part):
                 s.spawn(client, name)
             elif t == 'shutdown':
                 s.spawn(shutdown, name)
+            elif t == 'timer':
+                s.spawn(timer, name)
             elif t == 'reactor':
                 s.spawn(loop('reactor', reactor_actions, do_reactor), name)
             elif t == 'worker':
@@ -800,6 +854,16 @@ def sched_run(params, prefix, part):
             told[0] = n
 
         report_invariants()
+        for ev in p.get('epilogue', ()):
+            ev = tuple(ev)
+            if ((ev[0] == 'task' and len(st.w.tasks) <= ev[1]) or (ev[0] == 'timeout' and st.timer_of(ev[1]) is None)
+                    or (ev[0] in ('resp', 'resp-retry') and len(st.open_pending()) <= ev[1])):
+                st.skipped += 1
+                part.count('epilogue_events_not_possible')
+                continue
+            apply_event(st, ev)
+            report_invariants()
+            report(p, part, data, st.replacement_findings())
         if p.get('shutdown_at_end') and not st.pool.is_shutdown:
             # no thread shuts this pool down: it is shut down now, with whatever the threads left pending
             apply_event(st, ('shutdown',))
@@ -813,7 +877,9 @@ def sched_run(params, prefix, part):
         st.note_state()
         report_invariants()
         report(p, part, data, st.replacement_findings())
-        part.outcome((mid, st.outcome()))
+        if st.n_late_timeout:
+            part.count('executions_with_a_timeout_of_an_already_answered_request')
+        part.outcome((mid, st.outcome()) + (('late-timeouts=%d' % st.n_late_timeout,) if p.get('timer_tags') else ()))
         if any(pt.chosen for pt in s.trace):
             part.mark_nontrivial(repr((p.get('stage'), threads, s.choices())))
         part.sample({'threads': threads, 'stage': p.get('stage'), 'choices': s.choices(), 'end': st.outcome()}, limit=1)
